@@ -501,6 +501,70 @@ func (e *stubEnv) external(r *engine.Run, fn *ssa.Function, args []engine.Value,
 		return lines.Elems[pos], true
 	case "(*bufio.Scanner).Err":
 		return engine.Iface{}, true
+	case "(*sync.Map).Load", "(*sync.Map).Store", "(*sync.Map).LoadOrStore", "(*sync.Map).Delete", "(*sync.Map).LoadAndDelete", "(*sync.Map).Range", "(*sync.Map).Swap":
+		// sync.Map as a process-wide cache: modelled as an ordinary map per sync.Map address (single-threaded run)
+		ptr, ok := args[0].(engine.Pointer)
+		if !ok || ptr.Slot == nil {
+			return nil, false
+		}
+		if ps.SyncMaps == nil {
+			ps.SyncMaps = map[*engine.Value]*engine.MapObj{}
+		}
+		m := ps.SyncMaps[ptr.Slot]
+		if m == nil {
+			m = &engine.MapObj{}
+			ps.SyncMaps[ptr.Slot] = m
+		}
+		switch fn.Name() {
+		case "Load":
+			if en := r.MapFind(m, args[1]); en != nil {
+				return engine.Tuple{en.V, engine.True}, true
+			}
+			return engine.Tuple{engine.Iface{}, engine.False}, true
+		case "Store":
+			r.MapStore(m, args[1], args[2])
+			return nil, true
+		case "Swap":
+			if en := r.MapFind(m, args[1]); en != nil {
+				old := en.V
+				en.V = args[2]
+				return engine.Tuple{old, engine.True}, true
+			}
+			r.MapStore(m, args[1], args[2])
+			return engine.Tuple{engine.Iface{}, engine.False}, true
+		case "LoadOrStore":
+			if en := r.MapFind(m, args[1]); en != nil {
+				return engine.Tuple{en.V, engine.True}, true
+			}
+			r.MapStore(m, args[1], args[2])
+			return engine.Tuple{args[2], engine.False}, true
+		case "Delete":
+			r.MapDelete(m, args[1])
+			return nil, true
+		case "LoadAndDelete":
+			if en := r.MapFind(m, args[1]); en != nil {
+				v := en.V
+				r.MapDelete(m, args[1])
+				return engine.Tuple{v, engine.True}, true
+			}
+			return engine.Tuple{engine.Iface{}, engine.False}, true
+		default: // Range
+			for _, en := range append([]*engine.MapEntry{}, m.Entries...) {
+				cont := r.CallValue(args[1], []engine.Value{en.K, en.V}, site)
+				if t, ok := cont.(*engine.Term); ok && !r.Decide(t) {
+					break
+				}
+			}
+			return nil, true
+		}
+	case "(*sync.Mutex).Lock", "(*sync.Mutex).Unlock", "(*sync.RWMutex).Lock", "(*sync.RWMutex).Unlock", "(*sync.RWMutex).RLock", "(*sync.RWMutex).RUnlock":
+		// single-threaded run: locks are no-ops
+		return nil, true
+	case "(*sync.Mutex).TryLock", "(*sync.RWMutex).TryLock":
+		return engine.True, true
+	case "(*bufio.Scanner).Buffer":
+		// the model has no token limit (strings in the bounds are far below bufio.MaxScanTokenSize)
+		return nil, true
 	case "os.Exit":
 		code := 0
 		if t, ok := args[0].(*engine.Term); ok && t.Const {
